@@ -40,6 +40,8 @@ type Pkg struct {
 	// M2/M3 (model.go)
 	set *SetModel
 	get *GetModel
+	// emission model of Vector (vocab.go / semit.go)
+	emitModel *EmitModel
 }
 
 type World struct {
